@@ -42,7 +42,8 @@ OptFields(o) ==
 HostCfgs == {"one", "oneport", "two", "portfirst", "three", "badport", "v6"}
    \* ["a.example"], ["a.example:8080"], ["a.example","b.example:9090"], ["a.example:8443","b.example"], ["a.example","b.example:9090","c.example"], ["a.example:xyz"], ["::1"]
 PortConns == {"", "8443", "abc"}
-WHs == {"", "8:00-17:00", "0:00-24:00", "9:30-9:60", "18:05-23:59", "17:00-8:00", "9:00-9:00", "25:00-26:00", "8:00", "08:00-17:30", "8:0-17:00"}
+WHs == {"", "8:00-17:00", "0:00-24:00", "9:30-9:60", "18:05-23:59", "17:00-8:00", "9:00-9:00", "25:00-26:00", "8:00", "08:00-17:30", "8:0-17:00",
+        "9:00-17:300", "8:00-12:00,13:00-17:00", "8:00-17:00 UTC", " 8:00-17:00", "x8:00-17:00"}      \* a well-formed window with something after / before it
       \* the accepted grammar is H:MM-H:MM with hours written without a leading zero; "08:00-17:30" and "8:0-17:00" are outside it
 Methods == {"", "POST", "post", "GET", "get"}
 Rots == {"round-robin", "random", "weird"}
@@ -101,8 +102,13 @@ Patch == /\ hist = <<>>
 (* building a second payload for the same listener gives the same block: a build does not change the listener *)
 Again == /\ Len(hist) = 1 /\ last.op = "Patch"
          /\ last' = [last EXCEPT !.op = "Again"] /\ hist' = Append(hist, [op |-> "Again"]) /\ UNCHANGED <<opt, lst>>
-Spec == Init /\ [][Patch \/ Again]_vars
+(* the whole build for an output format (executable, service executable, library, shellcode - which compiles a library with
+   a nested builder): the block the compiler is handed as CONFIG_BYTES is that same block *)
+Formats == {"exe", "svc", "dll", "shellcode"}
+Built(f) == /\ Len(hist) = 2 /\ last.op = "Again" /\ f \in Formats
+            /\ last' = [last EXCEPT !.op = "Built"] /\ hist' = Append(hist, [op |-> "Built", fmt |-> f]) /\ UNCHANGED <<opt, lst>>
+Spec == Init /\ [][Patch \/ Again \/ \E f \in Formats : Built(f)]_vars
 (* C13 *)
-ConfigIsWhatWasChosen == last.op \in {"Patch", "Again"} /\ last.built => last.o = OptFields(opt) /\ last.l = LstFields(lst)
-UnencodableFails == last.op \in {"Patch", "Again"} => (last.built <=> Encodable(lst))
+ConfigIsWhatWasChosen == last.op \in {"Patch", "Again", "Built"} /\ last.built => last.o = OptFields(opt) /\ last.l = LstFields(lst)
+UnencodableFails == last.op \in {"Patch", "Again", "Built"} => (last.built <=> Encodable(lst))
 =============================================================================
